@@ -25,6 +25,9 @@ func main() {
 	chunk := fs.Int("chunk", 1500, "cases per generated Coq file")
 	fs.Parse(os.Args[2:])
 	caseChunk = *chunk
+	if *slow > 1 {
+		slowFactor = *slow
+	}
 	opt := Opts{Seed: *seed, N: *n, Out: *out, Replay: *replay, Slow: *slow, Mode: *mode}
 	silenceStdout()
 	var err error
